@@ -270,8 +270,8 @@ impl Property for C06 {
     }
     fn budget(&self, tier: Tier) -> Budget {
         match tier {
-            Tier::Quick => Budget { cases: 40_000, min_len: 8, max_len: 300 },
-            Tier::Thorough => Budget { cases: 3_000_000, min_len: 8, max_len: 400 },
+            Tier::Quick => Budget { cases: 150000, min_len: 8, max_len: 300 },
+            Tier::Thorough => Budget { cases: 5000000, min_len: 8, max_len: 400 },
         }
     }
 
